@@ -8,8 +8,84 @@ package grandpa
 
 import (
 	"fmt"
+	"os"
+	"strconv"
 	"strings"
 )
+
+// c19OwnLines restricts VERIF_LINES (corpus / replay) to the line kinds this run understands, so that a
+// replay of another run's lines is not answered with `bad-op`.
+func c19OwnLines(kinds ...string) {
+	p := os.Getenv("VERIF_LINES")
+	if p == "" {
+		return
+	}
+	data, err := os.ReadFile(p)
+	if err != nil {
+		return
+	}
+	var keep []string
+	for _, l := range strings.Split(string(data), "\n") {
+		f := strings.Fields(l)
+		if len(f) == 0 {
+			continue
+		}
+		for _, k := range kinds {
+			if f[0] == k {
+				keep = append(keep, l)
+			}
+		}
+	}
+	tmp, err := os.CreateTemp("", "c19lines")
+	if err != nil {
+		return
+	}
+	tmp.WriteString(strings.Join(keep, "\n") + "\n")
+	tmp.Close()
+	os.Setenv("VERIF_LINES", tmp.Name())
+}
+
+func c19KV(hdr string) map[string]string {
+	m := map[string]string{}
+	for _, f := range strings.Fields(hdr) {
+		if i := strings.IndexByte(f, '='); i > 0 {
+			m[f[:i]] = f[i+1:]
+		}
+	}
+	return m
+}
+
+func c19U(s string) uint64 {
+	v, err := strconv.ParseUint(s, 10, 64)
+	if err != nil {
+		panic("c19U " + s)
+	}
+	return v
+}
+
+func c19List(s string) []uint64 {
+	if s == "-" || s == "" {
+		return nil
+	}
+	var out []uint64
+	for _, x := range strings.Split(s, ",") {
+		out = append(out, c19U(x))
+	}
+	return out
+}
+
+func c19Pairs(s string) [][2]uint64 {
+	if s == "-" || s == "" {
+		return nil
+	}
+	var out [][2]uint64
+	for _, x := range strings.Split(s, ",") {
+		ab := strings.Split(x, ":")
+		out = append(out, [2]uint64{c19U(ab[0]), c19U(ab[1])})
+	}
+	return out
+}
+
 
 type c19Pc struct {
 	blk, num, id uint64
@@ -60,10 +136,15 @@ func (c *c19Case) isDesc(base, blk uint64) bool {
 	}
 }
 
-func c19Draw(r *vhRng) *c19Case {
+func c19Draw(r *vhRng) *c19Case { return c19DrawW(r, 0) }
+
+func c19DrawW(r *vhRng, w int) *c19Case {
 	c := &c19Case{w: 32}
 	if r.Bool() {
 		c.w = 64
+	}
+	if w != 0 {
+		c.w = w
 	}
 	// tree
 	n := 1 + r.Intn(8)
@@ -308,22 +389,10 @@ func c19GenVCL(r *vhRng) string {
 		c19JoinPairs(c.voters), c19JoinList(c.par), c.tBlk, c.tNum, strings.Join(ops, ";"))
 }
 
-func c19GenJust(r *vhRng) string {
-	c := c19Draw(r)
+// c19Need: the headers a correct prover would attach (every block from a precommit target up to, not
+// including, the lowest target), mutated now and then: one missing / extra / repeated / all headers.
+func c19Need(c *c19Case, r *vhRng) []uint64 {
 	n := uint64(len(c.par))
-	// signature kinds
-	for i := range c.pcs {
-		k := uint64(0)
-		if c.pcs[i].sig == 1 {
-			k = 5 // "same vote, other signature": a corrupted copy (the only way to get other bytes)
-		}
-		if r.Chance(1, 25) {
-			k = uint64(1 + r.Intn(5))
-		}
-		c.pcs[i].sig = k
-	}
-	// the headers a correct prover would attach: every block from a precommit target up to (not
-	// including) the lowest target
 	var need []uint64
 	if len(c.pcs) > 0 {
 		lo := c.pcs[0]
@@ -367,6 +436,24 @@ func c19GenJust(r *vhRng) string {
 		j := r.Intn(i + 1)
 		need[i], need[j] = need[j], need[i]
 	}
+	return need
+}
+
+func c19GenJust(r *vhRng) string {
+	c := c19Draw(r)
+	n := uint64(len(c.par))
+	// signature kinds
+	for i := range c.pcs {
+		k := uint64(0)
+		if c.pcs[i].sig == 1 {
+			k = 5 // "same vote, other signature": a corrupted copy (the only way to get other bytes)
+		}
+		if r.Chance(1, 25) {
+			k = uint64(1 + r.Intn(5))
+		}
+		c.pcs[i].sig = k
+	}
+	need := c19Need(c, r)
 	ftB, ftN := c.tBlk, c.tNum
 	if r.Chance(1, 25) {
 		if r.Bool() {
@@ -388,4 +475,124 @@ func c19GenJust(r *vhRng) string {
 	return fmt.Sprintf("just w=%d r=%d s=%d off=%d v=%s t=%s h=%s c=%d:%d ft=%d:%d|%s", c.w, r.Intn(3), r.Intn(3),
 		hoff, c19JoinPairs(c.voters), c19JoinList(c.par), c19JoinList(need), c.tBlk, c.tNum, ftB, ftN,
 		strings.Join(ops, ";"))
+}
+
+// c19GenWrap: a `wrap` line for Service.VerifyBlockJustification: a justification as in `just` lines
+// (uint32 numbers) plus the GrandpaState it is checked against: change blocks of the sets placed around
+// the target number (block exactly at / one after a change block), authorities of every set (the voters
+// of the case in the set the target number maps to, others elsewhere; now and then swapped, missing or
+// empty), the set id the precommits are signed for, and the imported block (hash and number).
+func c19GenWrap(r *vhRng) string {
+	c := c19DrawW(r, 32)
+	n := uint64(len(c.par))
+	for i := range c.pcs {
+		k := uint64(0)
+		if c.pcs[i].sig == 1 {
+			k = 5
+		}
+		if r.Chance(1, 40) {
+			k = uint64(1 + r.Intn(5))
+		}
+		c.pcs[i].sig = k
+	}
+	need := c19Need(c, r)
+	tn := c.tNum
+	// change blocks
+	cand := map[uint64]bool{}
+	nsets := 1 + r.Intn(4)
+	for len(cand) < nsets-1 {
+		var x uint64
+		switch r.Intn(6) {
+		case 0:
+			x = tn
+		case 1:
+			x = tn - 1
+		case 2:
+			x = tn + 1
+		case 3:
+			x = tn - 2 - uint64(r.Intn(5))
+		case 4:
+			x = tn + 2 + uint64(r.Intn(5))
+		default:
+			x = uint64(1 + r.Intn(30))
+		}
+		x &= 0xffffffff
+		if x == 0 {
+			x = 1
+		}
+		cand[x] = true
+	}
+	cs := []uint64{0}
+	for x := range cand {
+		cs = append(cs, x)
+	}
+	for i := 1; i < len(cs); i++ { // insertion sort (map order is random, the draw above is not)
+		for j := i; j > 0 && cs[j] < cs[j-1]; j-- {
+			cs[j], cs[j-1] = cs[j-1], cs[j]
+		}
+	}
+	sid := 0
+	for i := 1; i < len(cs); i++ {
+		if cs[i] < tn {
+			sid = i
+		}
+	}
+	// authorities of every set
+	other := func() string {
+		k := 1 + r.Intn(4)
+		var ps [][2]uint64
+		for i := 0; i < k; i++ {
+			ps = append(ps, [2]uint64{uint64(10 + r.Intn(6)), uint64(1 + r.Intn(3))})
+		}
+		return c19JoinPairs(ps)
+	}
+	sets := make([]string, len(cs))
+	for i := range sets {
+		switch {
+		case i == sid:
+			sets[i] = c19JoinPairs(c.voters)
+		case r.Chance(1, 10):
+			sets[i] = c19JoinPairs(c.voters) // the neighbour has the same authorities
+		default:
+			sets[i] = other()
+		}
+	}
+	if len(sets) > 1 && r.Chance(1, 10) { // the voters sit in a neighbouring set
+		j := (sid + 1) % len(sets)
+		sets[sid], sets[j] = sets[j], sets[sid]
+	}
+	if r.Chance(1, 25) {
+		sets[r.Intn(len(sets))] = "x"
+	}
+	if r.Chance(1, 40) {
+		sets[r.Intn(len(sets))] = "-"
+	}
+	sset := uint64(sid)
+	if r.Chance(1, 10) {
+		sset = uint64(r.Intn(len(cs) + 1))
+	}
+	ibB, ibN := c.tBlk, c.tNum
+	switch r.Intn(16) {
+	case 0:
+		ibB = uint64(r.Intn(int(n) + 2))
+	case 1:
+		ibN++
+	case 2:
+		if ibN > 0 {
+			ibN--
+		}
+	case 3:
+		ibN += 1 << 32 // header numbers are uint; the comparison is made in uint32
+	}
+	hoff := c.off
+	if hoff >= 1<<30 {
+		hoff %= 1000
+	}
+	var ops []string
+	for _, p := range c.pcs {
+		ops = append(ops, fmt.Sprintf("%d %d %d %s", p.blk, p.num, p.id, c19Kinds[p.sig]))
+	}
+	return fmt.Sprintf("wrap cs=%s cur=%d as=%s ib=%d:%d r=%d s=%d off=%d t=%s h=%s c=%d:%d|%s",
+		c19JoinList(cs), len(cs)-1, strings.Join(sets, "/"), ibB, ibN, r.Intn(4), sset, hoff,
+		c19JoinList(c.par), c19JoinList(need), c.tBlk, c.tNum, strings.Join(ops, ";"))
 }
